@@ -32,6 +32,8 @@ type Scenario struct {
 	Clients [][]BatchSpec `json:"clients"`
 	Readers int           `json:"readers"` // reader goroutines
 	ReaderRounds int      `json:"reader_rounds"`
+	Hammer       int      `json:"hammer"`       // > 0: the fresh reader taken after a root replacement (it IS the current root) is searched by that many goroutines at once
+	Churn        int      `json:"churn"`        // free-running only: goroutines that do nothing but Reader()/Close() in parallel with the batches
 	FreeReaders  int      `json:"free_readers"` // free-running only: goroutines that obtain readers in parallel with the batches and search each from 3 goroutines at once
 	Images  bool          `json:"images"`
 	Second  bool          `json:"second"` // attempt a second writer on the locked directory
@@ -234,9 +236,14 @@ type openReader struct {
 // Run executes the scenario once under the given scheduler. startDir, if not
 // empty, is an existing directory (a crash image) to start from; uidBase is
 // the number of uids already used in earlier incarnations.
+// InRun is set while an execution is inside its synctest bubble (read by the watchdog of TestDrive).
+var InRun atomic.Bool
+
 func Run(t *testing.T, scn Scenario, sched Scheduler, workDir string, uidBase *int, evSink *[]ctl.Event) RunResult {
 	var res RunResult
 	var c *ctl.Ctl
+	InRun.Store(true)
+	defer InRun.Store(false)
 	defer ctl.ClearSys()
 	defer func() {
 		// synctest panics when the bubble's root goroutine ends while other
@@ -367,6 +374,24 @@ func Run(t *testing.T, scn Scenario, sched Scheduler, workDir string, uidBase *i
 				}()
 			}
 		}
+		if scn.Free {
+			// nothing but Reader() / Close(), as fast as possible, while roots are being replaced
+			for ci := 0; ci < scn.Churn; ci++ {
+				wg.Add(1)
+				cwg.Add(1)
+				go func() {
+					defer wg.Done()
+					defer cwg.Done()
+					c.Register(fmt.Sprintf("ch%d", ci+1))
+					for k := 0; k < 400; k++ {
+						if r, err := s.W.Reader(); err == nil {
+							_, _ = r.Count()
+							_ = r.Close()
+						}
+					}
+				}()
+			}
+		}
 		go func() { cwg.Wait(); close(clientsDone) }()
 
 		var closing atomic.Bool
@@ -481,9 +506,30 @@ func Run(t *testing.T, scn Scenario, sched Scheduler, workDir string, uidBase *i
 			if scn.RootObs && !closing.Load() {
 				if n := c.CountEv("IntroBatch", "IntroMerge", "IntroPersist"); n != rootEvs {
 					rootEvs = n
+					if scn.Hammer > 0 {
+						c.LogP("ctl", "FReaderCall", "r", "h")
+					}
 					if r, err := s.W.Reader(); err == nil {
 						o := ctl.Observe(r, scn.Ids, true)
 						c.Log("RootObs", "obs", o)
+						if scn.Hammer > 0 {
+							// everything else is parked: this reader is the writer's current root (the case in which
+							// the reader shares recycling pools with the writer); search it from several goroutines at once
+							c.LogP("ctl", "FReaderOpen", "r", "h", "obs", o)
+							var hwg sync.WaitGroup
+							for j := 0; j < scn.Hammer; j++ {
+								hwg.Add(1)
+								go func() {
+									defer hwg.Done()
+									for k := 0; k < 2; k++ {
+										o := ctl.Observe(r, scn.Ids, true)
+										c.LogP("ctl", "FReaderObs", "r", "h", "obs", o)
+									}
+								}()
+							}
+							hwg.Wait()
+							c.LogP("ctl", "FReaderClose", "r", "h")
+						}
 						_ = r.Close()
 					}
 				}
